@@ -1289,6 +1289,17 @@ class Discharger:
             if r1 and r2:
                 return ("D-len", "equal lengths")
             return None
+        if what in ("split_at", "split_at_mut", "split_off", "truncate") and len(ops) == 2:
+            ln = pr.lin(("len", canon(ops[0])))
+            mid = ops[1]
+            cands = [mid]
+            if mid[0] == "call" and isinstance(mid[1], str) and mid[1].rsplit("::", 1)[-1] == "min" and len(mid[2]) == 2:
+                cands = [canon(mid[2][0]), canon(mid[2][1])]     # min(a, b) <= len when either is
+            for c in cands:
+                r = pr.prove(_sub(pr.lin(c), ln), s.bb)
+                if r:
+                    return ("D-" + r, "split point within the length")
+            return None
         if what.startswith("time-arith:Sub") and len(ops) == 2:
             # a - b on clock readings / durations cannot fail when a dominating comparison established b <= a
             g = _sub(pr.lin(ops[1]), pr.lin(ops[0]))
